@@ -289,6 +289,30 @@ func c13Oracle(cs *core.Case, clean *core.Outcome, f mstore.Fault, o faultObs) (
 	return afterOK(cs, o)
 }
 
+// c13StringOracle: a panic whose value is not an error (panic("...")). On the goroutine
+// that called Exec it escapes to the caller, as it does in the reference engine; on every
+// other goroutine it must not reach the top (process death), and it never becomes a success.
+func c13StringOracle(cs *core.Case, clean *core.Outcome, f mstore.Fault, o faultObs) (string, string) {
+	escaped := false
+	for _, p := range o.out.Panics {
+		if p.Where == "Exec (escaped)" {
+			escaped = true
+			continue
+		}
+		return "panic@" + p.Where, p.Val
+	}
+	if o.out.Hang && !escaped {
+		return "hang", "Exec did not return within the hang guard"
+	}
+	if o.out.Leaked > 0 && !escaped {
+		return "leak", fmt.Sprintf("%d engine goroutines alive after the grace period", o.out.Leaked)
+	}
+	if len(o.out.Fired) > 0 && !escaped && !o.out.Res.Failed() {
+		return "panic-swallowed", "a panic(string) in a storage callback was turned into a successful result: " + o.out.Res.String()
+	}
+	return "", ""
+}
+
 func c15Oracle(cs *core.Case, clean *core.Outcome, f mstore.Fault, o faultObs) (string, string) {
 	if s, d := engineSymptom(o.out); s != "" {
 		return s, d
@@ -380,6 +404,7 @@ func faultReplayer(oracle faultOracle) func(f *check.Failure) (string, string) {
 
 func init() {
 	check.Replayers["enum:C13/fault"] = faultReplayer(c13Oracle)
+	check.Replayers["enum:C13/fault-string"] = faultReplayer(c13StringOracle)
 	check.Replayers["enum:C15/fault"] = faultReplayer(c15Oracle)
 	check.Replayers["enum:C17/fault"] = faultReplayer(c17Oracle)
 	check.Replayers["enum:C17/labels"] = func(f *check.Failure) (string, string) {
@@ -406,6 +431,8 @@ func init() {
 
 	check.Register("C13/fault", func(c *check.Ctx) {
 		enumerateFaults(c, "C13", "C13/fault", panicKinds, []string{"panic-runtime", "panic-nil"}, c13Oracle, deep(c), true)
+		// a panic with a value that is not an error
+		enumerateFaults(c, "C13", "C13/fault-string", panicKinds, []string{"panic-string"}, c13StringOracle, windows[:2], true)
 	})
 	check.Register("C15/fault", func(c *check.Ctx) {
 		enumerateFaults(c, "C15", "C15/fault", errorKinds, []string{"error"}, c15Oracle, deep(c), true)
